@@ -1,5 +1,6 @@
 import Pcore.Proofs.LatFam
 import Pcore.Proofs.LatMono
+import Pcore.Proofs.LatGen
 set_option linter.unusedSimpArgs false
 /-!
 # C04 — Inferred types contain their values; common type and generalisation are bounds
@@ -30,6 +31,7 @@ Full statement / proved / missing
   keys, Sensitive, objects, scalars), for the code's setting of the exempt rule: fold invariant "every element seen so far is an instance
   of the accumulator" + C01 + `C04_common_fam` (commonType is an upper bound on the family `Ty.Fam` of inferred types and stays inside it);
   `C04_ptype_of_family` — the same for values with type values, conditional on a family on which commonType is an upper bound;
+  `C04_generalize_partial` — the sixth law for every type without Variant (and with finite Float bounds: the excluded case is the finding);
 * missing: the first law for values that hold TYPE values (commonType of two `Type[..]` recurses into arbitrary types: Tuple / Variant
   merges need transitivity stage 2), the second law for hashes with non-string / empty-string keys;
   `C04_common` for the structural merges (Enum/String/Array/Tuple/Variant …); `C04_generalize`.  All six laws are evaluated on the
@@ -83,6 +85,13 @@ theorem C04_ptype_of_family (cfg : Cfg) (sfh : Bool) (hl : ∀ s, (cfg.lower s).
     (U : InferFam cfg sfh G TV) (v : Val) (ok : v.OK) (tv : Val.TyOK cfg v) (at' : Val.AllTyp TV v) :
     inst cfg sfh (ptype cfg sfh v) v = true :=
   (ptype_inst cfg sfh hl G TV U v.w v (Nat.le_refl _) ok tv at').1
+
+/-- sixth law: the generalisation (`px.Generalize`) and the generic type (`px.GenericType`) of a type accept that type — for every
+    well-formed type without Variant and without Data/RichData nested inside, whose ranges are what the constructors allow (int64
+    bounds, sizes ≥ 0) and whose Float bounds are FINITE (the excluded case is the known finding C04-float-infinity) -/
+theorem C04_generalize_partial (cfg : Cfg) (sfh : Bool) (t : Ty) (wt : Ty.WF cfg t) (nt : t.NoAlias) (gt : t.GenOK) :
+    asg cfg sfh (generalize t) t = true ∧ asg cfg sfh (genericType t) t = true :=
+  gen_asg cfg sfh t.w t (Nat.le_refl _) wt nt gt
 
 /-- third law, from C01: what accepts the detailed type contains the value (rule off, fragment of `C01_sound_partial`) -/
 theorem C04_accepts_sound_partial (cfg : Cfg) (hl : ∀ s, (cfg.lower s).length = s.length) (t : Ty) (v : Val)
@@ -148,6 +157,7 @@ example : Val.AllTyp (fun _ => False) (.array [.int 1, .hash [(.int 2, .str "a")
   · constructor
   · refine Val.AllTyp.hash _ ?_ ?_ <;> (intro e he; simp at he; subst he; constructor)
   · exact Val.AllTyp.array _ (by intro x hx; cases hx)
+example : (Ty.struct [("a", true, .array (.strVal "x") ⟨1, 2⟩)]).GenOK := by simp [Ty.GenOK, Rng.isSize, I64.max]
 example : Val.Leafy idCfg4 (.sensitive (.typ (.array (.int ⟨0, 5⟩) ⟨1, 2⟩))) := by
   simp [Val.Leafy, Ty.WF, Ty.TF]
 example : Val.Structy idCfg4 (.array [.int 1, .hash [(.str "a", .array [.str "x", .undef]), (.str "b", .undef)]]) := by
